@@ -1,6 +1,6 @@
 """C20 — metric scopes: op sequences (incr/value/merge/reset/gob) against BS.Metrics."""
 PID = "C20"
-CASE_LIMIT = {"C20": 15}   # seconds: these cases are function calls, not sessions
+CASE_LIMIT = {"C20": 45}   # seconds: these cases are function calls, not sessions
 RULE = ("(C20e2e) counting programs run end to end on both executors, their results consumed by later runs with discards in "
         "between: the counters of every result equal the increments of one execution per task; (C20) random op sequences new/incr/value/merge/reset/resetnil/gob over up to 6 scopes and 6 registered counters, "
         "including merges between scopes that share instances after Reset(u) and self-merges; observation = every op's "
